@@ -56,14 +56,17 @@ static void emit(const std::string &verdict, const std::string &cls, const std::
   bool first = true;
   for (auto &kv : g_stats) { if (!first) st += ","; first = false; st += jstr(kv.first) + ":" + std::to_string(kv.second); }
   st += "}";
+  std::string imgs = "{";
+  { bool f1 = true; for (auto &it : g_obs.items) if (it.first.compare(0, 4, "img:") == 0) { if (!f1) imgs += ","; f1 = false; imgs += jstr(it.first.substr(4)) + ":\"" + hex64(it.second) + "\""; } }
+  imgs += "}";
   std::string sym = "[";
   for (size_t i = 0; i < g_sym.size() && i < 12; i++) { if (i) sym += ","; sym += "{\"what\":" + jstr(g_sym[i].what) + ",\"report\":" + jstr(g_sym[i].report) + "}"; }
   sym += "]";
   fprintf(g_out, "{\"run\":%llu,\"seed\":%llu,\"harness\":\"history\",\"mode\":%s,\"spec\":%s,\"verdict\":%s,\"class\":%s,\"detail\":%s,"
-                 "\"kinds\":%s,\"shape\":%s,\"obs_img\":\"%s\",\"obs_ans\":\"%s\",\"obs_bans\":\"%s\",\"obs_lans\":\"%s\",\"n_img\":%zu,\"n_ans\":%zu,\"stats\":%s,\"n_sym\":%zu,\"mask\":\"%s\",\"sym\":%s}\n",
+                 "\"kinds\":%s,\"shape\":%s,\"obs_img\":\"%s\",\"obs_ans\":\"%s\",\"obs_bans\":\"%s\",\"obs_lans\":\"%s\",\"n_img\":%zu,\"n_ans\":%zu,\"stats\":%s,\"n_sym\":%zu,\"mask\":\"%s\",\"imgs\":%s,\"sym\":%s}\n",
           (unsigned long long)g_run_index, (unsigned long long)g_run_seed, jstr(g_mode).c_str(), jstr(g_spec).c_str(), jstr(verdict).c_str(), jstr(cls).c_str(), jstr(detail).c_str(),
           jstr(g_kinds).c_str(), jstr(g_shape).c_str(), hex64(g_obs.group("img:")).c_str(), hex64(g_obs.group("ans:")).c_str(), hex64(g_obs.group("bans:")).c_str(),
-          hex64(g_obs.group("lans:")).c_str(), g_obs.count("img:"), g_obs.count("ans:") + g_obs.count("bans:") + g_obs.count("lans:"), st.c_str(), g_sym.size(), hex64(g_mask_hash).c_str(), sym.c_str());
+          hex64(g_obs.group("lans:")).c_str(), g_obs.count("img:"), g_obs.count("ans:") + g_obs.count("bans:") + g_obs.count("lans:"), st.c_str(), g_sym.size(), hex64(g_mask_hash).c_str(), imgs.c_str(), sym.c_str());
   if (g_verbose) for (auto &it : g_obs.items) fprintf(g_out, "  obs %s %s\n", it.first.c_str(), hex64(it.second).c_str());
   fflush(g_out);
 }
